@@ -65,6 +65,7 @@ fn main() -> anyhow::Result<()> {
         }
     }
     let mut cx = Ctx::new(&prop, seed, tier);
+    ctx::breadcrumb_init(&out);
     match prop.as_str() {
         "C01" => c01::run(&mut cx),
         "C02" => c02::run(&mut cx),
@@ -91,6 +92,7 @@ fn main() -> anyhow::Result<()> {
             std::process::exit(2);
         }
     }
+    ctx::breadcrumb_done();
     cx.write_out(&out)?;
     Ok(())
 }
